@@ -20,6 +20,10 @@ func TestDump(t *testing.T) {
 	n := 0
 	rapid.Check(t, func(rt *rapid.T) {
 		o := Opts{MaxStmts: 10, MaxDepth: 3, Helpers: 2, Arrays: true, Structs: true, Loops: true, ArrayParams: true}
+		if os.Getenv("MPCL_DUMP_PROFILE") == "c05" {
+			o = Opts{NumParams: 2, MaxStmts: 9, MaxDepth: 2, Helpers: 1, Arrays: true,
+				Structs: true, Loops: true, AliasHeavy: true, ScalarParams: true, MaxWidth: 70, StructParams: true}
+		}
 		p := Draw(rt, o)
 		src := p.Source()
 		n++
